@@ -150,6 +150,18 @@ def run_c08(run_, rng, tier):
         if rng.random() < 0.5:
             o["file"] = "f"
         scns.append(dict(tree=tree, opts=o, umask=0o022))
+    # absolute names: the file operand (hence the reject file), files created by the patch, -o and -r
+    for t, o in [
+        (b"--- f\n+++ f\n@@ -1 +1 @@\n-nomatch\n+x\n", {"file": "@CWD@/f", "f": 1}),
+        (b"--- /dev/null\n+++ @CWD@/new/dir/file\n@@ -0,0 +1 @@\n+x\n", {"p": 0}),
+        (b"--- @CWD@/f\n+++ @CWD@/f\n@@ -1 +1 @@\n-a\n+A\n", {"p": 0}),
+        (b"--- f\n+++ f\n@@ -1 +1 @@\n-a\n+A\n", {"o": "@CWD@/out/put", "file": "f"}),
+        (b"--- f\n+++ f\n@@ -1 +1 @@\n-nomatch\n+A\n", {"r": "@CWD@/rej/ects", "file": "f", "f": 1}),
+        (b"diff --git a/f b/g\nsimilarity index 100%\nrename from f\nrename to @CWD@/moved/g\n", {"p": 0}),
+        (b"--- f\n+++ f\n@@ -1 +1 @@\n-a\n+A\n", {"b": 1, "B": "@CWD@/bak/", "file": "f"}),
+    ]:
+        o = dict(o); o["i"] = "p.diff"; o.setdefault("p", 1)
+        scns.append(dict(tree={"f": ("R", 0o644, b"a\nb\nc\n"), "p.diff": ("R", 0o644, t)}, opts=o, umask=0o022, abs_paths=True))
     t0 = time.time()
     results = run_many(exe, scns, timeout=10)
     bad = []
@@ -163,7 +175,7 @@ def run_c08(run_, rng, tier):
     mism = []
     for i, (s, r, ml) in enumerate(zip(scns, results, model)):
         mc, _, _ = l2.model_canon(ml)
-        if not r.get("timed_out") and mc != l2.impl_line(r):
+        if not r.get("timed_out") and not s.get("abs_paths") and mc != l2.impl_line(r):
             mism.append((i, "L2", dict(scenario=describe(s), model=mc[:1500], impl_line=l2.impl_line(r)[:1500], stdout=r["stdout"].decode("latin-1")[-500:], stderr=r["stderr"].decode("latin-1")[-300:])))
     return bad, mism
 
